@@ -53,7 +53,8 @@ def prelude(res, ctx, need_race=False, lean=True):
             # not fatal here: the stub it leaves makes the translated-function theorems fail to check below
             res.notes.append("translator could not translate /repo's current source: " + out[-600:])
     pid = ctx.pid
-    mod = "XixiKV.Properties." + pid
+    mods = core.property_modules(pid)
+    mod = " ".join(mods)
     thms = core.property_theorems(pid)
     res.obligations = list(thms)
     res.checker_cmd = "cd /verif/lean && lake build %s driver && lake env lean <#print axioms of each theorem>" % mod
@@ -63,7 +64,7 @@ def prelude(res, ctx, need_race=False, lean=True):
     if consts:
         thms = thms + ["XixiKV.ConstsCheck.consts_match"]
         res.obligations = list(thms)
-    ok, out, dt = core.lake_build(([mod] if thms else []) + (["XixiKV.Proofs.ConstsCheck"] if consts else []) + ["driver"])
+    ok, out, dt = core.lake_build((mods if thms else []) + (["XixiKV.Proofs.ConstsCheck"] if consts else []) + ["driver"])
     ctx.model_ok = os.path.exists(core.DRIVER) and ok
     if not thms:
         res.notes.append("no Lean theorems for this property yet")
@@ -82,7 +83,7 @@ def prelude(res, ctx, need_race=False, lean=True):
     hits = core.lean_sources_clean()
     if hits:
         res.violation("forbidden constructs in Lean sources: " + "; ".join(hits[:5]), {"hits": hits}, no_input=True)
-    axs, raw, rc = core.audit_axioms(mod + ("\nimport XixiKV.Proofs.ConstsCheck" if consts else ""), thms)
+    axs, raw, rc = core.audit_axioms("\nimport ".join(mods) + ("\nimport XixiKV.Proofs.ConstsCheck" if consts else ""), thms)
     bad = {}
     for t in thms:
         if t not in axs:
@@ -97,7 +98,7 @@ def prelude(res, ctx, need_race=False, lean=True):
     res.extra["axioms"] = {t: axs.get(t, []) for t in thms}
     if ctx.tier == "thorough":
         import subprocess
-        r = subprocess.run(["lake", "env", "leanchecker", mod], cwd=core.LEAN, capture_output=True, text=True)
+        r = subprocess.run(["lake", "env", "leanchecker"] + mods, cwd=core.LEAN, capture_output=True, text=True)
         res.extra["leanchecker"] = "ok" if r.returncode == 0 else (r.stdout + r.stderr)[-500:]
         if r.returncode != 0:
             res.violation("leanchecker rejected " + mod, {"out": (r.stdout + r.stderr)[-2000:]}, no_input=True)
@@ -255,9 +256,12 @@ def check_C12(res, ctx):
         corrupt.random_damage(res, ctx, rng_for(ctx.seed, "C12r", i), i)
     for i in range(2 if ctx.quick else 30):
         corrupt.check_truncated_hinted(res, ctx, rng_for(ctx.seed, "C12t", i))
+    for i in range(1 if ctx.quick else 12):
+        corrupt.check_structural(res, ctx, rng_for(ctx.seed, "C12s", i))
     return "every single-bit flip of every byte of the data / hint / marker files of small databases (exhaustive unless counted under files_sampled), " \
-           "then Open + dump + Fold; random multi-byte overwrites, truncations, zero runs and 64-byte garbage on larger ones; oracle: every served " \
-           "value was written for that key, no panic; the byte-exact model must predict the same outcome"
+           "then Open + dump + Fold; random multi-byte overwrites, truncations (also exactly at block boundaries), cut-out ranges, zero runs and " \
+           "64-byte garbage on larger ones; structural damage that keeps every chunk checksum valid (record cut between two of its chunks, missing " \
+           "block, swapped chunks); oracle: every served value was written for that key, no panic; the byte-exact model must predict the same outcome"
 
 
 def crash_family(res, ctx, tag, kinds, n_quick, n_thorough, io_mix=(0, 0, 0, 0, 0, 0, 0, 1), cuts_quick="few", cuts_thorough="all", level2=False,
@@ -273,16 +277,26 @@ def crash_family(res, ctx, tag, kinds, n_quick, n_thorough, io_mix=(0, 0, 0, 0, 
         if io == 1:
             nsteps = 6 if ctx.quick else 10    # every recovery of an mmap image reads its 1 GiB zero extension
         if kind == "merge-multi":
-            ops, cfg = crashcheck.merge_workload(rng, io=io)
+            ops, cfg = crashcheck.merge_workload(rng, io=io, double=(i % 2 == 0))
         else:
             ops, cfg = crashcheck.workload(rng, io=io, kind=kind, nsteps=nsteps)
         items.append((i, kind, io, ops, cfg))
+    froms = {}
+    if tag == "C03":
+        # directed: a power failure persists the first part of a large record whose bytes decode as SHORT chunks (0x01...: length 257);
+        # recovery cuts it away; a short write follows; then a second crash without Close.  Whatever recovery cut away logically must
+        # not resurface behind the new record (memory-mapped files are pre-extended: the stale bytes are still in the file).
+        for io in (1, 0):
+            cfg = {"fs": 65536, "sync": 0, "bps": 0, "idx": 1, "io": io, "shards": 4}
+            ops = [engine.open_line("d", cfg), "put 6b31 x11", "sync", "put 6b32 x" + "01" * 4000, "close"]
+            froms[len(items)] = 3
+            items.append((len(items), "double-crash", io, ops, cfg))
 
     def job(it):
         i, kind, io, ops, cfg = it
         # every recovery of a memory-mapped image reads its zero extension (about a second): sampled cuts only
         cuts = cuts_quick if (ctx.quick or (io == 1 and cuts_thorough == "all")) else cuts_thorough
-        recs, err, rc = crashcheck.run_crash(ctx, ops, mode="io", cuts=cuts,
+        recs, err, rc = crashcheck.run_crash(ctx, ops, mode="io", cuts=cuts, from_op=froms.get(i, 0),
                                              dumpfiles=True, level2=level2, timeout=1800, postmerge=postmerge)
         return recs, err, rc
     results = core.parallel_map(job, items, workers=8)
